@@ -109,7 +109,8 @@ struct C08 : Property {
         if (!r.chance(rate)) continue;
         const char *link = dir ? "1>0" : "0>1";
         double x = (r.next() >> 11) * (1.0 / 9007199254740992.0);
-        if (x < 0.5) faults.push_back({{"link", link}, {"idx", k}, {"act", "drop"}});
+        if (x < 0.12 && dir == 0) faults.push_back({{"link", link}, {"idx", k}, {"act", "senderr"}});     // the client's send() fails (ENOBUFS)
+        else if (x < 0.5) faults.push_back({{"link", link}, {"idx", k}, {"act", "drop"}});
         else if (x < 0.75) faults.push_back({{"link", link}, {"idx", k}, {"act", "dup"}, {"n", 1}, {"delay_us", {r.range(0, 2000000)}}});
         else faults.push_back({{"link", link}, {"idx", k}, {"act", "delay"}, {"delay_us", {r.range(0, 2000000)}}});
       }
@@ -520,7 +521,14 @@ struct C08 : Property {
         s.t_submit = w.now();
         coap_mid_t mid = coap_send(ss, p);
         w.log("SUBMIT #%zu sess=%d %s mid=%04x", i, s.sess, s.con ? "CON" : "NON", (unsigned)mid & 0xffff);
-        if (mid == COAP_INVALID_MID) s.send_failed = true;
+        if (mid == COAP_INVALID_MID) {
+          s.send_failed = true;
+          if (s.first_tx_count == 1) {      // the socket refused the first transmission (send-error fault) and the caller was told: never accepted
+            cw.r3->first_send_refused(0, ss, s.mid);
+            cw.inflight[(size_t)s.sess].erase(s.mid);
+            w.count("probe.first_send_refused");
+          }
+        }
       }, 0);
     }
     w.run();
